@@ -27,3 +27,34 @@ package transaction
 //@   trusted
 //@   modifies *
 //@   ensures err == nil ==> rct != nil
+
+// ---------------------------------------------------------------------------
+// C22: list items are stored and looked up under key(index)
+// ---------------------------------------------------------------------------
+//@ property C22
+//@ func intToKey(i) (b)
+//@   arith bv
+//@   pure
+//@   ensures [key] idxKey(b, uint64(i))
+
+//@ func (l *transactionList) Get(i) (tx, err)
+//@   arith bv
+//@   pure
+//@   requires l != nil && l.trie != nil
+//@   callpre Get: idxKey(k, uint64(i))
+
+// the iterator reports the index the key stands for
+//@ func (i *transactionIterator) Get() (tx, idx, err)
+//@   arith bv
+//@   nosafety
+//@   noframe
+//@   requires i != nil
+//@   ensures [index] err == nil && tx != nil ==> (forall x uint64 :: idxKey(ghost(iter_key), x) ==> uint64(idx) == x)
+
+// item number idx of the slice is stored under key(idx)
+//@ func NewTransactionListFromSlice(dbase, list) (r)
+//@   arith bv
+//@   nosafety
+//@   noframe
+//@   callpre Set: idxKey(k, uint64(idx)) && o == list[idx]
+//@   loop 0: invariant -1 <= rangeindex && rangeindex < len(list)
